@@ -45,6 +45,24 @@ func runC07(c *Ctx) {
 	}
 
 	// ---- O2: victim loop
+	// the function that brings reclaimer and reclaimee to the level where their queue paths diverge is found by what
+	// it is used for — the only function of the package that takes two queues and returns two — not by its name
+	levelFn := p.Func(pkgReclaimable, "Reclaimable", "getLeveledQueues")
+	if levelFn == nil {
+		for _, f := range p.FuncsIn(pkgReclaimable) {
+			if isTestdataOrMock(f) || f.Parent() != nil || f.Signature.Results().Len() != 2 || len(instrsIn(fromVictims, isCallToFn(f))) == 0 {
+				continue
+			}
+			r0, r1 := f.Signature.Results().At(0).Type(), f.Signature.Results().At(1).Type()
+			if types.Identical(r0, r1) && strings.Contains(typeKey(r0), "QueueAttributes") {
+				levelFn = f
+			}
+		}
+	}
+	levelName := "getLeveledQueues"
+	if levelFn != nil {
+		levelName = levelFn.Name()
+	}
 	sub := c.Anchor("O2", pkgReclaimable, "Reclaimable", "subtractReclaimedResources")
 	if sub != nil {
 		calls := instrsIn(fromVictims, isCallToFn(sub))
@@ -58,10 +76,10 @@ func runC07(c *Ctx) {
 		for _, call := range instrsIn(fromVictims, isCallToFn(fits)) {
 			args := call.(ssa.CallInstruction).Common().Args
 			t := termOf(args[3])
-			ok := t.contains(func(x *Term) bool { return x.Op == "lookup" && strings.Contains(x.Args[1].String(), "getLeveledQueues") && strings.HasSuffix(x.Args[1].String(), ".UID") })
+			ok := t.contains(func(x *Term) bool { return x.Op == "lookup" && strings.Contains(x.Args[1].String(), levelName) && strings.HasSuffix(x.Args[1].String(), ".UID") })
 			c.Check(ok, "O2", "PROV", funcKey(fromVictims)+": strategy evaluated on the remaining share of the queue at the divergence level", instrPos(call), trunc(t.String(), 160), "FitsReclaimStrategy is not given the remaining share of the reclaimee queue at the level where it diverges from the reclaimer")
 			q := termOf(args[2])
-			c.Check(strings.Contains(q.String(), "getLeveledQueues"), "O2", "PROV", funcKey(fromVictims)+": strategy evaluated against the leveled reclaimee queue", instrPos(call), trunc(q.String(), 120), "FitsReclaimStrategy is not given the reclaimee queue at the divergence level")
+			c.Check(strings.Contains(q.String(), levelName), "O2", "PROV", funcKey(fromVictims)+": strategy evaluated against the leveled reclaimee queue", instrPos(call), trunc(q.String(), 120), "FitsReclaimStrategy is not given the reclaimee queue at the divergence level")
 		}
 		// remaining share: initialised once per queue (only when absent), reduced for every ancestor
 		nInit := 0
@@ -97,7 +115,11 @@ func runC07(c *Ctx) {
 	// paths differ (for queues of different departments: the departments, not the leaf queues). Once the paths have
 	// diverged the scan does not look at deeper levels. GHOST: the ghost bit is "the paths differed at some level";
 	// with it set, the comparison of a further level must not execute.
-	if glq := c.Anchor("O2", pkgReclaimable, "Reclaimable", "getLeveledQueues"); glq != nil {
+	if levelFn == nil {
+		c.Undec("O2", "ANCHOR", pkgReclaimable+": the function that levels reclaimer and reclaimee queues", 0, "not found (neither by name nor by its use in the victim loop)")
+	}
+	if glq := levelFn; glq != nil {
+		c.Analysed(funcKey(glq))
 		isUIDCmp := func(in ssa.Instruction) (*ssa.BinOp, bool) {
 			bo, ok := in.(*ssa.BinOp)
 			if !ok || (bo.Op != token.NEQ && bo.Op != token.EQL) {
